@@ -244,10 +244,28 @@ func c15model(script []c15sym, attempts int) (calls int) {
 	}
 }
 
+// c15run judges the script under a caller context without a deadline and under one whose
+// deadline is live and an hour away (round-11 seed: "has a deadline" mistaken for "has expired").
 func c15run(m c15method, attempts int, script []c15sym) (msg, class string) {
+	msg, class = c15runCtx(m, attempts, script, false)
+	if msg != "" {
+		return msg, class
+	}
+	if msg2, _ := c15runCtx(m, attempts, script, true); msg2 != "" {
+		return "caller-context-with-live-deadline:" + msg2, ""
+	}
+	return msg, class
+}
+
+func c15runCtx(m c15method, attempts int, script []c15sym, withDeadline bool) (msg, class string) {
 	node := &c15node{script: script}
 	w := chord.WrapRetryKV(node, 50*time.Millisecond, uint(attempts))
 	ctx := context.WithValue(context.Background(), c15ctxKey{}, "marker")
+	if withDeadline {
+		var cancel context.CancelFunc
+		ctx, cancel = context.WithTimeout(ctx, time.Hour)
+		defer cancel()
+	}
 	var (
 		vidx     int
 		hasValue bool
